@@ -32,4 +32,8 @@ static inline void do_yields(int n) { for (int i = 0; i < n; i++) { myth_yield()
 /* a call that is successful by construction must say so: these functions are documented to return zero on success */
 #define Z0(call) do { int z0_ = (call); if (z0_ != 0) mt_fail("%s returned %d although it succeeded (documented: zero on success)", #call, z0_); } while (0)
 
+/* thread creation in a generated flavour (NULL attribute / attribute object with default, parent-first, custom stack),
+   optionally with a deferred cancellation request pending in the new thread; returns what myth_create_ex returned */
+int mt_create(myth_thread_t * id, myth_func_t fn, void * arg);
+
 #endif
